@@ -76,6 +76,11 @@ type pxStore struct {
 
 func newPxStore(tag string, cfg pxCfg) *pxStore {
 	dir, _ := ck.Scratch(tag)
+	return newPxStoreAt(dir, cfg)
+}
+
+// newPxStoreAt opens (or creates) the storage below dir: a second process attaches to the same storage this way.
+func newPxStoreAt(dir string, cfg pxCfg) *pxStore {
 	st := &pxStore{Dir: dir, Root: filepath.Join(dir, "root"), Cfg: cfg, Acct: auth.Account{Access: "acc1", Role: auth.RoleAdmin}}
 	os.MkdirAll(st.Root, 0o755)
 	po := posix.PosixOpts{NewDirPerm: 0o755, ForceNoTmpFile: cfg.NoTmp}
@@ -740,7 +745,7 @@ func C05(r *ck.Run) {
 		bound, bound3 = 3, 2
 		cfgs = append(cfgs, pxCfg{NoTmp: true, Versioning: true}, pxCfg{Sidecar: true}, pxCfg{Sidecar: true, NoTmp: true})
 	}
-	r.Rule(fmt.Sprintf("every interleaving with <= %d preemptions of the filesystem steps of 2-3 logical threads operating on one key through real posix backends sharing one root; distinct = distinct schedule; an execution is non-trivial when at least one context switch happened", bound))
+	r.Rule(fmt.Sprintf("every interleaving with <= %d preemptions of the filesystem steps of 2-3 logical threads operating on one key through real posix backends sharing one root; plus two writer PROCESSES (separate descriptor tables and counters) on one storage, the first paused before each of its file-system steps while an identical second process runs a whole upload (same key, different keys, keys in one new directory; both temp-file strategies); distinct = distinct schedule; an execution is non-trivial when at least one context switch happened", bound))
 	r.Assume("single syscalls are atomic; reads/writes on an unpublished or immutable inode are not scheduling points; directory reads are one step")
 	r.Extra("preemption_bound", bound)
 	r.Extra("preemption_bound_3_threads", bound3)
@@ -756,6 +761,7 @@ func C05(r *ck.Run) {
 		}
 	}
 	r.Sharded(16, func() {
+		c05CrossProcess(r)
 		for ji, j := range jobs {
 			// whole (config, scenario) jobs are dealt to workers; inside a job the explorer is not sharded
 			_ = ji
